@@ -235,6 +235,48 @@ class Seams:
             ("chmod", "chmod"),
         ):
             wrap_path(os, fname, seam)
+        # directory listings of the cache folder are returned in logical-name order: the real order
+        # depends on the hash-derived file names (which contain the scratch path) and would make the
+        # order of rmtree's removals differ from one worker to the next
+        park_scandir = os.scandir
+        park_listdir = os.listdir
+
+        class _SortedScan:
+            def __init__(self, entries):
+                self.entries = entries
+
+            def __iter__(self):
+                return iter(self.entries)
+
+            def __next__(self):
+                raise StopIteration
+
+            def __enter__(self):
+                return self
+
+            def __exit__(self, *a):
+                return False
+
+            def close(self):
+                pass
+
+        def sorted_scandir(path=".", *a, **kw):
+            it = park_scandir(path, *a, **kw)
+            if not S.inside(path):
+                return it
+            with it:
+                entries = sorted(it, key=lambda e: (S.name(e.path), e.name))
+            return _SortedScan(entries)
+
+        def sorted_listdir(path=".", *a, **kw):
+            lst = park_listdir(path, *a, **kw)
+            if not S.inside(path):
+                return lst
+            return sorted(lst, key=lambda n: (S.name(os.path.join(os.fspath(path), n)), n))
+
+        os.scandir = sorted_scandir
+        os.listdir = sorted_listdir
+
         for fname in ("rename", "replace", "link", "symlink"):
             wrap_path(os, fname, fname if fname in ("rename", "replace") else "link", nargs=2)
 
